@@ -82,7 +82,7 @@ impl Prop for C08 {
             }
         }
         for (i, (a, b)) in dl.outs.iter().zip(ol.outs.iter()).enumerate() {
-            if a.data != b.data {
+            if canon_port(&a.data) != canon_port(&b.data) {
                 ctx.fail(
                     format!("C08/output-depends-on-chunking/{name}"),
                     format!("output port {i}, drip vs one-shot: {}", describe_diff(&a.data, &b.data)),
@@ -111,6 +111,7 @@ impl Prop for C08 {
             "stream capacity >= 2x the block's contiguous unit (FFT block, FIR look-ahead, text line)".into(),
             "bit-stream consumers get {0,1}; integer arithmetic blocks get non-overflowing values".into(),
             "both runs deliver the whole input and are drained to quiescence, so equality (not only the prefix relation) is required".into(),
+            "samples are compared bit for bit except that all NaNs count as equal (payload and sign of a NaN result depend on operand order, which the compiler may change between a vectorised loop body and its scalar tail)".into(),
         ]
     }
 }
